@@ -634,15 +634,13 @@ class ISO8601Sequence(SequenceBase):
                  self.recurrence.min_point is not None) and
                 (self.recurrence.end_point is not None or
                  self.recurrence.max_point is not None))):
-            curr = None
-            prev = None
-            for recurrence_iso_point in self.recurrence:
-                prev = curr
-                curr = recurrence_iso_point
-            ret = ISO8601Point(str(curr))
-            if self.exclusions and ret in self.exclusions:
-                return ISO8601Point(str(prev))
-            return ret
+            # the last point that is not excluded (there may be any number
+            # of excluded points at the end of the recurrence)
+            points = list(self.recurrence)
+            while points:
+                ret = ISO8601Point(str(points.pop()))
+                if not self.exclusions or ret not in self.exclusions:
+                    return ret
         return None
 
     def __eq__(self, other):
